@@ -2,5 +2,5 @@ From Coq Require Import String Ascii NArith List Bool.
 From Coq Require Import ExtrOcamlBasic ExtrOcamlString.
 From Tiff Require Import TiffEnc SideBySide TiffDec.
 Extraction Language OCaml.
-Extraction "tiffmodel.ml" mkFixes all_fixes dev_init step run destroy decode regions fs_get
+Extraction "tiffmodel.ml" mkFixes all_fixes dev_init step run destroy decode regions fs_get fs_put
   N.of_nat N.to_nat N.div_eucl N.add N.mul N.eqb.
